@@ -594,36 +594,51 @@ Fixpoint pd_stmts (env : denv) (res : bool) (ss : list stmt) : bool * list stmt 
          let '(b', tl', env'') := pd_stmts env' b tl in (b', s' :: tl', env'')
   end.
 
-(* Cfg::merge_control: which condition decides along which edge block b is entered -
-   a loop header (a predecessor that does not come before it) by its own condition,
-   any other join by the condition that ends its immediate dominator *)
-Inductive decider := DecNone | DecCond (cond : expr) | DecOpaque.
-
-Definition last_cond (b : block) : decider :=
+(* Cfg::merge_control: the conditions that decide along which edge block b is entered:
+   the conditions of the if-statements / loops ending a block on the dominator-tree path
+   from each predecessor of b up to and including the immediate dominator of b (for a
+   loop header the path from the end of the body leads through the header itself) *)
+Definition last_cond (b : block) : option expr :=
   match last (b_stmts b) (SLog {| m_start := 0%N; m_end := 0%N; m_file := None |} []) with
-  | SIf _ c _ _ => DecCond c
-  | _ => DecOpaque
+  | SIf _ c _ _ => Some c
+  | _ => None
   end.
 
-Definition deciding (all : list block) (idom : list (option N)) (b : block) : decider :=
-  if (length (b_preds b) <? 2)%nat then DecNone
-  else if existsb (fun q => N.leb (b_index b) q) (b_preds b) then last_cond b
-  else match nth_error idom (N.to_nat (b_index b)) with
-       | Some (Some d) => match nth_error all (N.to_nat d) with Some bd => last_cond bd | None => DecOpaque end
-       | _ => DecOpaque
-       end.
-
-Definition ctl_of (d : decider) : mctl :=
-  match d with
-  | DecNone => MConst
-  | DecCond c => match expr_deg c with
-                 | Some rg => if range_is_constant rg then MConst else MNonConst
-                 | None => MUnknown
-                 end
-  | DecOpaque => MUnknown
+Definition cond_at (all : list block) (i : N) : list expr :=
+  match nth_error all (N.to_nat i) with
+  | Some b => match last_cond b with Some c => [c] | None => [] end
+  | None => []
   end.
 
-Definition block_ctl (all : list block) (idom : list (option N)) (b : block) : mctl := ctl_of (deciding all idom b).
+Fixpoint chain_conds (fuel : nat) (all : list block) (idom : list (option N)) (stop : option N) (cur : N) : list expr :=
+  match fuel with
+  | O => []
+  | S f =>
+    cond_at all cur ++
+    (if opt_eqb N.eqb (Some cur) stop then []
+     else match nth_error idom (N.to_nat cur) with
+          | Some (Some d) => chain_conds f all idom stop d
+          | _ => []
+          end)
+  end.
+
+Definition idom_of (idom : list (option N)) (i : N) : option N :=
+  match nth_error idom (N.to_nat i) with Some o => o | None => None end.
+
+(* None: fewer than two predecessors, nothing to decide *)
+Definition deciding (all : list block) (idom : list (option N)) (b : block) : option (list expr) :=
+  if (length (b_preds b) <? 2)%nat then None
+  else Some (flat_map (chain_conds (S (length all)) all idom (idom_of idom (b_index b))) (b_preds b)).
+
+Definition cond_nonconst (c : expr) : bool :=
+  match expr_deg c with Some rg => negb (range_is_constant rg) | None => false end.
+Definition cond_unknown (c : expr) : bool := match expr_deg c with None => true | Some _ => false end.
+
+Definition ctl_of_conds (cs : list expr) : mctl :=
+  if existsb cond_nonconst cs then MNonConst else if existsb cond_unknown cs then MUnknown else MConst.
+
+Definition block_ctl (all : list block) (idom : list (option N)) (b : block) : mctl :=
+  match deciding all idom b with None => MConst | Some cs => ctl_of_conds cs end.
 
 (* one pass over the blocks; [pre] are the blocks already visited in this pass (in order):
    the deciding condition is read from the current state of the whole graph *)
